@@ -127,7 +127,10 @@ def Dec.decode (c : Codec) (d : Dec) : Dec × Bool :=
       | some shards' =>
         match concatShards k shards' with
         | none => (.rs k p shards' block nbSrc nbEnc, false)
-        | some out => (.rs k p shards' (some out) nbSrc nbEnc, true)
+        -- the block is decoded: from here on the shard table is DEAD STATE (`push_symbol` and `decode` return at once when
+        -- `decode_block` is set, `source_block` reads `decode_block`); the code leaves the reconstructed table there, the model keeps
+        -- the table as received (so that "the ESIs the decoder holds" stays what was received: Lemmas/SessionObjRecv.lean)
+        | some out => (.rs k p shards (some out) nbSrc nbEnc, true)
   | .rq _ _ _ _ _ data => (d, data.isSome)
   | .raptor k bs pushes _ =>
     let r := c.rDecode k bs pushes
